@@ -112,8 +112,11 @@ C05_ConvertedTaskIsLive(P, Q) ==
 \* an acknowledged registration (2xx reply carrying promise body b for registration id
 \* cbid) either reports the promise completed, or the registration exists / has already
 \* been converted
-C05_AckMeansRegisteredOrCompleted(Q, b, cbid) ==
-  b.state = PENDING => (Has(Q.callbacks, cbid) \/ Has(Q.tasks, cbid))
+\* (mesg is the message the registration asks for: a task that merely has the same id - ids derived
+\* from ids containing ":" can collide - is not this registration converted)
+C05_AckMeansRegisteredOrCompleted(Q, b, cbid, mesg) ==
+  b.state = PENDING => \/ Has(Q.callbacks, cbid) /\ Q.callbacks[cbid].mesg = mesg
+                       \/ Has(Q.tasks, cbid) /\ Q.tasks[cbid].mesg = mesg
 
 (***************************************************************************)
 (* C07 - single holder, leases, fencing.  lapsed = set of <<task, counter>> whose    *)
